@@ -317,6 +317,17 @@ Proof. intros inp. apply clause_silent_on_model. Qed.
 Corollary clause5_silent_on_model : forall inp, dom01S inp = true -> ~ In 5%Z (mon01S inp (run01S inp)).
 Proof. intros inp. apply clause_silent_on_model. Qed.
 
+Lemma mon01S_clauses_silent_on_model_proof : forall inp, dom01S inp = true ->
+  ~ In 1%Z (mon01S inp (run01S inp)) /\ ~ In 2%Z (mon01S inp (run01S inp)) /\
+  ~ In 3%Z (mon01S inp (run01S inp)) /\ ~ In 4%Z (mon01S inp (run01S inp)) /\
+  ~ In 5%Z (mon01S inp (run01S inp)).
+Proof.
+  intros inp H. split; [|split; [|split; [|split]]]; apply clause_silent_on_model; exact H.
+Qed.
+
+Lemma dom01S_spec_proof : forall inp, dom01S inp = true <-> 1 <= sx_nat (sx_nth inp 0).
+Proof. intros inp. apply Nat.leb_le. Qed.
+
 (** * non-vacuity and necessity of the domain *)
 Module Ex.
 Open Scope Z_scope.
